@@ -707,9 +707,10 @@ Definition top_value (c : cfg) : Z := match ty c with FRACTIONAL => maxfrac c | 
 Definition combinable (c : cfg) (i : input) : bool :=
   (1 <=? top_value c) &&
   forallb (fun j => forallb (fun p =>
-      let vs := map (fun k => expected_pixel c i j p k) (zrange (zlen (segs c))) in
-      forallb (fun v => (v =? 0) || (v =? top_value c)) vs &&
-      (zlen (filter (fun v => negb (v =? 0)) vs) <=? 1))
+      let ks := zrange (zlen (segs c)) in
+      forallb (fun k => (expected_pixel c i j p k =? 0) || (expected_pixel c i j p k =? top_value c)) ks &&
+      forallb (fun k1 => forallb (fun k2 =>
+          (k1 =? k2) || (expected_pixel c i j p k1 =? 0) || (expected_pixel c i j p k2 =? 0)) ks) ks)
     (zrange (npix c))) (zrange (n_planes i)).
 
 (* one schedule of calls on one object; step codes: 0 stacked read, 1 combined
